@@ -205,8 +205,25 @@ def run(chk):
   chk.ob('C05-R5', ok, None, 'rules are inferred in order of dependency complexity',
          'rules are no longer sorted by the complexity of their predicate', fi=eng)
   bc = repo.func('infer.BuildComplexities')
-  ok = any(isinstance(c, ast.Call) and call_tail(c) == 'sum' for c in ast.walk(bc.node)) and \
-      any(isinstance(c, ast.Call) and call_tail(c) == 'GetComplexity' for c in ast.walk(bc.node))
+  # the recursive worker may be nested in BuildComplexities or a function of
+  # the module it calls
+  scope = [bc.node]
+  for c in ast.walk(bc.node):
+    if isinstance(c, ast.Call) and isinstance(c.func, ast.Name) and c.func.id in bc.module.funcs \
+        and bc.module.funcs[c.func.id].node is not bc.node:
+      scope.append(bc.module.funcs[c.func.id].node)
+  recursive = False
+  for sc in scope:
+    for f_ in ast.walk(sc):
+      if isinstance(f_, (ast.FunctionDef,)) and any(
+          isinstance(c, ast.Call) and call_tail(c) == f_.name for c in ast.walk(f_)) and any(
+          isinstance(c, ast.Call) and call_tail(c) == 'sum' for c in ast.walk(f_)):
+        # 1 + sum(<recursive call> for x in dependencies[p])
+        recursive = any(isinstance(b_, ast.BinOp) and isinstance(b_.op, ast.Add) and
+                        any(isinstance(c, ast.Call) and call_tail(c) == 'sum' for c in ast.walk(b_))
+                        and any(isinstance(k_, ast.Constant) and k_.value == 1 for k_ in (b_.left, b_.right))
+                        for b_ in ast.walk(f_)) or recursive
+  ok = recursive
   chk.ob('C05-R5', ok, None, 'complexity of a predicate exceeds that of everything it depends on',
          'complexity is no longer 1 + sum over dependencies', fi=bc)
 
